@@ -41,6 +41,11 @@ def strategy(tier, mode=None):
         else:
             c = draw(lossgen.loss_case(kinds=["Square"], weights=True, target_param="any-order", max_states=3, n_times=(3, 8), catalogue=1))
         c["part"] = "jtj" if mode in (None, "jtj") else "hessian"
+        if c["part"] == "jtj" and c["model"].get("family") == "chain" and draw(st.integers(0, 3)) == 0:
+            # amounts measured in small units: states (and hence sensitivities) of order 1e-5, JTJ entries of order 1e-10
+            c["setup"] = dict(c["setup"], x0=[S.sig(v * 1e-5, 4) for v in c["setup"]["x0"]])
+            c["x0_eval"] = [S.sig(v * 1e-5, 4) for v in c["x0_eval"]]
+            c["small_scale"] = True
         if c["part"] == "jtj":
             c["precalls"] = [{"fn": draw(st.sampled_from(["fisher_information", "gradient", "jtj", "sensitivity-full"])),
                               "factor": draw(st.sampled_from([0.8, 1.0, 1.25]))} for _ in range(draw(st.sampled_from([0, 0, 1, 2])))]
@@ -80,6 +85,8 @@ def oracle(case, rec):
     tp = case["target_param"] or m["params"]
     pidx = [m["params"].index(q) for q in tp]
     rec.label("part:" + case["part"], "free:%d" % nf, "obs:%d" % p)
+    if case.get("small_scale"):
+        rec.label("states:order-1e-5")
     if case["part"] == "jtj":
         wf = case["weights"]
         rec.label("weights:" + ("none" if wf is None else "scalar" if not isinstance(wf, list) else
